@@ -293,6 +293,22 @@ def canon(x):
     return repr(x)
 
 
+def backup_slot(flow):
+    """(canonical content of the backup slot or None, flow.modified()): what the revert button would restore and whether it is offered"""
+    b = flow._backup
+    if b is not None:
+        b = dict(b)
+        b.pop("id", None)
+        b.pop("backup", None)
+        b.pop("timestamp_created", None)
+        b = json.dumps(canon(b), sort_keys=True)
+    try:
+        m = bool(flow.modified())
+    except Exception as e:  # judged by the caller as a difference
+        m = "modified() raised " + type(e).__name__
+    return b, m
+
+
 def fingerprint(kind, flow, state):
     b = flow._backup
     if b is not None:
@@ -347,9 +363,11 @@ def run_history(case, t: Tally, judge_last_only=True, verbose=False):
     states = [s_init]
     all_held = True
     s1 = s_init
+    slot1 = backup_slot(flow)
     for i, doc in enumerate(case["puts"]):
         last = i == len(case["puts"]) - 1
         s0 = s1  # nothing touches the flow between two PUTs
+        slot0 = slot1
         crashed = None
         try:
             r = put(wd, flow, doc)
@@ -358,6 +376,7 @@ def run_history(case, t: Tally, judge_last_only=True, verbose=False):
         except BaseException as e:
             r, crashed = None, repr(e)[:200]
         s1 = state_of(flow)
+        slot1 = backup_slot(flow)
         status = r.status if r is not None else None
         if status == 404 or status == 403:
             raise HarnessError("the PUT did not reach FlowHandler.put (status %r): %r" % (status, r.brief() if r else crashed))
@@ -394,7 +413,21 @@ def run_history(case, t: Tally, judge_last_only=True, verbose=False):
                                "2xx with every field applied, or flow state exactly as before this request", obs)
                 if ok2xx:
                     held = t.judge("accepted_edit_is_complete", not missing, feats, case, "every field of the accepted document is visible on the flow", obs) and held
-            all_held = all_held and bool(held)
+            # the backup slot is part of the flow: what "revert" restores and whether the flow counts as modified
+            sobs = {"status": status, "outcome": outcome, "backup_before": "set" if slot0[0] else None, "backup_after": "set" if slot1[0] else None,
+                    "backup_same": slot0[0] == slot1[0], "modified_before": slot0[1], "modified_after": slot1[1]}
+            if s1 == s0 and not (ok2xx and inv is None):
+                # nothing was applied (rejected, or a no-op): revert target and modified() exactly as before this request
+                held2 = t.judge("rejected_edit_leaves_backup_and_modified_unchanged", slot1 == slot0, feats, case,
+                                "backup slot and modified() as before this request", sobs)
+            elif ok2xx and s1 != s0:
+                # applied: the state that revert would have restored before (or, without a backup, the state before this edit) stays reachable
+                want = slot0[0] if slot0[0] is not None else json.dumps(canon(s0), sort_keys=True)
+                held2 = t.judge("accepted_edit_keeps_original_revertable", slot1[0] == want and slot1[1] is True, feats, case,
+                                "revert() still restores the original; modified() is true", sobs)
+            else:
+                held2 = True  # a partial application / an accepted no-op: judged by the clauses above
+            all_held = all_held and bool(held) and bool(held2)
             t.transitions += 1
             t.outcome([kind, inv or "none", prior, status, outcome])
             nontrivial = "fields" in doc or doc.get("envelope") == "non-object-section"
